@@ -376,7 +376,12 @@ def run_eigh(c, u):
     N, tier = u['N'], u['tier']
     Dmax = max(DMENU[tier])
     for sig in u['sigs']:
-        for D in DMENU[tier]:
+        Ds = list(DMENU[tier])
+        # groups of >= 3 eigenvalues that stay together through first order need D >= 5 to exercise the deeper
+        # levels of the block deflation: added to the quick tier for exactly those signatures
+        if tier == 'quick' and any(sig[k] >= 2 and sig[k + 1] >= 2 for k in range(len(sig) - 1)):
+            Ds.append(5)
+        for D in Ds:
             if D == 1 and any(s > 0 for s in sig) and sig != u['sigs'][0]:
                 pass
             datas, lams = [], []
